@@ -33,6 +33,7 @@ type line[H any] struct {
 	Seed    uint64 `json:"seed"`
 	Tier    string `json:"tier"`
 	Stream  string `json:"stream"`
+	Replay  string `json:"replay,omitempty"`
 	History H      `json:"history"`
 	Case
 }
@@ -105,7 +106,7 @@ func Main[H any](d Driver[H]) {
 					panic(fmt.Sprintf("%s: %v", fn, err))
 				}
 				c := d.Exec(l.History)
-				if err := enc.Encode(line[H]{Idx: idx, Seed: l.Seed, Tier: l.Tier, Stream: "replay:" + fn, History: l.History, Case: c}); err != nil {
+				if err := enc.Encode(line[H]{Idx: idx, Seed: l.Seed, Tier: l.Tier, Stream: l.Stream, Replay: fn, History: l.History, Case: c}); err != nil {
 					panic(err)
 				}
 				idx++
